@@ -305,12 +305,14 @@ func (r *Run) Finish() int {
 		if f.Status != "known" {
 			continue
 		}
+		// keys are compared without the "unstable read" marks: whether a record is rendered as ~X or X depends on
+		// whether some helper received a pointer to it, not on the construct
 		if f.Property == r.Prop {
-			known[f.ConstructKey] = f
+			known[normKey(f.ConstructKey)] = f
 		}
 		for _, p := range f.AlsoUnder {
 			if p == r.Prop {
-				known[f.ConstructKey] = f
+				known[normKey(f.ConstructKey)] = f
 			}
 		}
 	}
@@ -320,7 +322,7 @@ func (r *Run) Finish() int {
 	for _, o := range r.Obls {
 		switch o.st {
 		case Violated:
-			if f := known[o.Key]; f != nil {
+			if f := known[normKey(o.Key)]; f != nil {
 				o.Known = f.WhatFails
 				nKnown++
 				fmt.Printf("KNOWN-FINDING: property=%s %s %s — %s\n", r.Prop, o.Rule, o.Key, f.WhatFails)
@@ -337,7 +339,7 @@ func (r *Run) Finish() int {
 	for k, f := range known {
 		found := false
 		for _, o := range r.Obls {
-			if o.Key == k && o.st == Violated {
+			if normKey(o.Key) == k && o.st == Violated {
 				found = true
 			}
 		}
@@ -451,3 +453,5 @@ func (r *Run) writeEvidence(nDis, nKnown, nViol, nUnd int) {
 
 // Join builds a construct key.
 func Key(parts ...string) string { return strings.Join(parts, "|") }
+
+func normKey(k string) string { return strings.ReplaceAll(k, "~", "") }
